@@ -6,7 +6,8 @@ correspondence : public functions of pyamg/gallery/{stencil,laplacian,diffusion,
                  modes with a stated tolerance against the exact rational model value.
 search         : the clauses of the property judged on the real outputs by independent oracles: direct definition of the
                  truncated stencil operator, format / dtype, symmetry, Z-pattern + positive spectrum + closed-form
-                 tensor-product spectrum of the Poisson matrices, zero sum of the diffusion stencils, symmetry / positive
+                 tensor-product spectrum of the Poisson matrices (numerically; exactly on the rational Chebyshev roots:
+                 A v = lambda v, x^T A x > 0, in rational arithmetic -- extension E21), zero sum of the diffusion stencils, symmetry / positive
                  definiteness of the stiffness matrix, A_free @ B_free = 0, Dirichlet system = interior principal part of the
                  free system, (A @ B)[rows not coupled to the boundary] = 0, B = the three rigid-body fields.
 """
@@ -22,17 +23,26 @@ from common import enc_ints, enc_rats, enc_rat, frac
 META = {
     'rule': 'stencil_grid: seeded random odd-shaped stencils (extents 1,3,5,7; integer or quarter entries, ~40% zeros; real, '
             'complex, single, integer dtypes) on grids of 1-4 dimensions (extents 1..9 incl. 1-wide, non-square, stencil '
-            'wider than the grid) x 8 formats; poisson: every grid shape up to 6 / 4x4 / 3x3x3 / 2^4 (quick) resp. 12 / 6x6 / '
+            'wider than the grid) x 8 formats; plus stencils of widths 1..11 on grids of 1-3 dimensions with extents 1..4 (reach '
+            'width//2 below the extent, between extent and 2 extent, beyond 2 extent; wide in every dimension / in one '
+            'dimension with narrow others / independently; dense, sparse, one-to-three-entry) and, for every grid up to 4 / '
+            '4x4 / 3x3x3, all-nonzero pairwise-distinct stencils coupling every pair of grid points; poisson: every grid shape up to 6 / 4x4 / 3x3x3 / 2^4 (quick) resp. 12 / 6x6 / '
             '4x4x4 / 3^4 (thorough) x FD/FE x dtype x format; diffusion stencils: eps in 1e-4..1e4 (incl. 0, 1), rotation by '
             'Pythagorean (exactly rational cos/sin) and arbitrary angles; elasticity: every grid X x Y <= 4x4 (quick) / 6x6 '
             '(thorough) plus seeded larger non-square ones, x spacing x (E, nu) x format. A case is non-trivial when the '
             'operator has an off-diagonal entry (stencil/poisson), eps != 1 and a rotation is present (diffusion), always '
-            '(elasticity); distinct = distinct (function, arguments)',
-    'search_only': ['closed-form tensor-product spectrum of the Poisson matrices and their nonsingularity (symmetry, Z-pattern, '
-                    'diagonal value and weak diagonal dominance are theorems; the eigenvalues are compared numerically with the '
-                    'formula, tolerance 1e-9 relative; trigonometric eigenvectors are outside the rational model)',
-                    'strict positive DEFINITENESS of the Dirichlet stiffness matrix (symmetry and positive SEMI-definiteness of '
-                    'the assembled operator are theorems; lambda_min > 1e-12 lambda_max is checked per instance with eigvalsh)',
+            '(elasticity); distinct = distinct (function, arguments). Extension E21: x^T A x and A x of poisson (every grid '
+            'up to 8 / 4x4 / 3x3x3 quick, 16 / 6x6 / 4x4x4 / 2^4 thorough, FD/FE) and of the Dirichlet elasticity matrix on '
+            'seeded integer vectors (random, constant, one-hot); closed-form eigenpairs on grids with extents in '
+            '{1,2,3,5,8,11} (the extents whose U_g has the rational roots 0, +-1/2) and the 1-D Chebyshev residual identity for '
+            'c = k/4, all in exact rational arithmetic on the real integer matrices; non-trivial = nonzero vector, n >= 2',
+    'search_only': ['COMPLETENESS of the closed-form spectrum of the Poisson matrices: every closed-form pair (eigenvalue '
+                    'sum_i (2 - 2 cos(k_i pi/(g_i+1))) resp. 3^N - prod_i (1 + 2 cos(k_i pi/(g_i+1))), product eigenvector, '
+                    'nonzero) IS an eigenpair of the model matrix in every dimension / grid (theorems poisson_fd_spectrum(_real), '
+                    'poisson_fe_spectrum(_real), algebraic form over any field of characteristic 0 via Chebyshev U_n roots), and '
+                    'the matrices are positive definite / nonsingular (poisson_posdef); that these prod g_i pairs exhaust the '
+                    'spectrum with multiplicities (linear independence of the product vectors) is not a theorem: the sorted '
+                    'numeric spectrum is compared with the formula, tolerance 1e-9 relative',
                     'format / dtype of the returned sparse arrays (SciPy conversions are outside the model)',
                     'float evaluation of cos/sin and of the Lame parameters: the model is exact on (C, S, E, nu); the real '
                     'outputs are compared with it within 1e-12 / 1e-10 relative'],
@@ -41,10 +51,11 @@ META = {
                     'arithmetic is exact; diffusion and elasticity outputs are compared with the exact rational model value '
                     'within 1e-12 resp. 1e-10 relative to the largest entry (rounding is outside the model)',
                     'hypotheses of the elasticity theorems checked per instance by the generator: spacings > 0, E > 0, '
-                    '-1 < nu < 1/2 (then mu >= 0 and lame + mu >= 0 by theorem q12d_lame_ok)',
+                    '-1 < nu < 1/2 (then mu >= 0 and lame + mu >= 0 by theorem q12d_lame_ok; mu > 0 and lame + mu > 0 by '
+                    'q12d_lame_pos, the hypotheses of q12d_dirichlet_definite)',
                     'diffusion2d_fd_sum_zero needs C^2 + S^2 = 1: exact for the Pythagorean angles; for arbitrary angles the '
                     'float pair satisfies it to 1 ulp and the real stencil sum is judged with tolerance 64 eps * sum |entries|',
-                    'the matrix denoted by a triple list adds duplicates (proof-side readings entry / rowdot / rowsum are run by '
+                    'the matrix denoted by a triple list adds duplicates (proof-side readings entry / rowdot / rowsum / qform are run by '
                     'the driver and compared with the real matrices); SciPy COO->CSR duplicate summation, BSR products '
                     'P.T @ A @ P, dia_array semantics and LAPACK eigvalsh are trusted'],
 }
@@ -131,6 +142,81 @@ def gen_stencil(rng, t):
     fmt = FORMATS[int(rng.integers(len(FORMATS)))]
     return {'part': 'stencil', 'shape': shape, 'grid': grid, 'dtype': None if dtype == 'none' else dtype, 'format': fmt,
             'vals': [[float(v.real), float(v.imag)] for v in np.asarray(vals, dtype=complex)]}
+
+
+WIDTHS = [1, 3, 5, 7, 9, 11]
+
+
+def gen_stencil_wide(rng, t):
+    """stencils (much) wider than the grid: widths 1..11 against grid extents 1..4 in 1-3 dimensions. The reach
+    h = width // 2 of a dimension of extent g is drawn from all three regimes h <= g (ordinary), g < h < 2 g (the
+    boundary slices start beyond the far end of the axis) and h >= 2 g; wide in every dimension, wide in one and
+    narrow in the others, or independent per dimension"""
+    nd = int(rng.choice([1, 2, 3], p=[0.15, 0.5, 0.35]))
+    grid = [int(g) for g in rng.integers(1, 5, size=nd)]
+    if t % 6 == 0:
+        grid[int(rng.integers(nd))] = int(rng.choice([2, 3]))          # extents for which g < h < 2 g has a solution <= 5
+    mode = t % 4
+
+    def between(g):          # a width whose reach lies strictly between g and 2 g when there is one (g >= 2)
+        ws = [w for w in WIDTHS if g < w // 2 < 2 * g]
+        return int(rng.choice(ws)) if ws else int(rng.choice([w for w in WIDTHS if w // 2 >= g]))
+
+    def wider(g):
+        return int(rng.choice([w for w in WIDTHS if w // 2 > g] or [11]))
+
+    if mode == 0:
+        shape = [wider(g) for g in grid]
+    elif mode == 1:
+        shape = [int(rng.choice([1, 3])) for _ in grid]
+        ax = int(rng.integers(nd))
+        shape[ax] = wider(grid[ax])
+    elif mode == 2:
+        shape = [int(rng.choice(WIDTHS)) for _ in grid]
+    else:
+        shape = [int(rng.choice(WIDTHS)) for _ in grid]
+        ax = int(rng.integers(nd))
+        shape[ax] = between(grid[ax])
+    while int(np.prod(shape)) > 539:                          # 7 x 7 x 11 is the largest stencil
+        ax = int(np.argmax(shape))
+        shape[ax] -= 2
+    dtype = str(rng.choice(['float64', 'float64', 'float32', 'complex128', 'complex64', 'int64', 'int32', 'none']))
+    size = int(np.prod(shape))
+    dens = float(rng.choice([0.15, 0.6, 1.0]))
+    vals = rng.integers(-3, 4, size=size) * (rng.random(size) < dens)
+    if t % 5 == 1:                                            # one to three entries: single diagonals, nothing can cancel
+        vals = np.zeros(size, dtype=int)
+        vals[rng.integers(size, size=int(rng.integers(1, 4)))] = rng.integers(1, 4)
+    if dtype.startswith('float') and t % 3 == 0:
+        vals = vals / 4.0
+    if dtype.startswith('complex'):
+        vals = vals + 1j * (rng.integers(-2, 3, size=size) * (rng.random(size) < 0.5 * dens))
+    fmt = FORMATS[int(rng.integers(len(FORMATS)))]
+    return {'part': 'stencil', 'shape': shape, 'grid': grid, 'dtype': None if dtype == 'none' else dtype, 'format': fmt,
+            'vals': [[float(v.real), float(v.imag)] for v in np.asarray(vals, dtype=complex)]}
+
+
+def full_coupling_cases(rng, quick):
+    """every grid with extents 1..4 (1-D, 2-D) / 1..3 (3-D) with a stencil that reaches every other grid point from every
+    grid point (width 2 g - 1 or more in each dimension, up to 11 / 7) and has pairwise different nonzero entries: the
+    operator is the full matrix A[p, q] = S[centre + q - p]; every diagonal offset, every boundary slice length and the
+    duplicate-diagonal summation occur, and no two contributions can cancel"""
+    grids = [g for nd in (1, 2) for g in itertools.product(range(1, 5), repeat=nd)]
+    g3 = list(itertools.product(range(1, 4), repeat=3))
+    grids += [g3[int(k)] for k in rng.choice(len(g3), size=9, replace=False)] if quick else g3
+    for g in grids:
+        nd = len(g)
+        top = 7 if nd == 3 else 11
+        for variant in range(2):
+            if variant == 0:      # as wide as the format of the case allows, in every dimension
+                shape = [top] * nd
+            else:                 # seeded widths >= 2 g - 1 (just enough up to far too wide), different per dimension
+                shape = [int(rng.choice([w for w in WIDTHS if max(2 * e - 1, 1) <= w <= top])) for e in g]
+            size = int(np.prod(shape))
+            vals = (1 + rng.permutation(size)) * rng.choice([-1, 1], size=size)
+            dtype = str(rng.choice(['float64', 'float32', 'complex128', 'int64', 'int32', 'none']))
+            yield {'part': 'stencil', 'shape': shape, 'grid': list(g), 'dtype': None if dtype == 'none' else dtype,
+                   'format': FORMATS[int(rng.integers(len(FORMATS)))], 'vals': [[float(v), 0.0] for v in vals]}
 
 
 def gen_stencil_bad(rng, t):
@@ -222,6 +308,14 @@ def part_stencil(ctx, cases, lean=True):
         ctx.feat(f'stencil:format={case["format"]}')
         if any(s > g for s, g in zip(case['shape'], case['grid'])):
             ctx.feat('stencil:wider-than-grid')
+        if case['grid'] and len(case['shape']) == nd and min(case['grid']) >= 1:
+            reach = [(s // 2, g) for s, g in zip(case['shape'], case['grid'])]
+            if any(h > g for h, g in reach):
+                ctx.feat(f'stencil:{nd}d:reach > extent in ' + ('every dimension' if all(h > g for h, g in reach) else 'some dimension'))
+            if any(g < h < 2 * g for h, g in reach):
+                ctx.feat(f'stencil:{nd}d:extent < reach < 2 extent')
+            if all(s >= 2 * g - 1 for s, g in zip(case['shape'], case['grid'])) and n_nz == int(np.prod(case['shape'])) and nv >= 2:
+                ctx.feat(f'stencil:{nd}d:full coupling (every pair of grid points)')
         if case.get('expect'):
             ctx.feat('stencil:invalid-arguments')
         for b in judge_stencil(case, out):
@@ -724,24 +818,237 @@ def part_elas(ctx, lean=True, deep=False):
                     ctx.corr('q12d[free] model A B != 0 (contradicts q12d_free_nullspace)', case, ab_s[:200], '')
 
 
+# ---------------------------------------------------------------- extension E21: definiteness, closed-form eigenpairs
+
+def _rat_roots(g):
+    """the rational roots of the Chebyshev polynomial U_g: cos(k pi / (g+1)) in {0, 1/2, -1/2}"""
+    r = []
+    if g % 2 == 1:
+        r.append(Fraction(0))
+    if (g + 1) % 3 == 0:
+        r += [Fraction(1, 2), Fraction(-1, 2)]
+    return r
+
+
+def _cheb(c, n):
+    """U_0(c) .. U_n(c) by the three-term recurrence (independent of the Lean model)"""
+    u = [Fraction(1), 2 * c]
+    while len(u) < n + 1:
+        u.append(2 * c * u[-1] - u[-2])
+    return u[:n + 1]
+
+
+def _tensor_vec(grid, cs):
+    us = [_cheb(c, g) for g, c in zip(grid, cs)]
+    return [math.prod(us[i][k] for i, k in enumerate(idx)) for idx in itertools.product(*[range(g) for g in grid])]
+
+
+def _fr_matvec(D, v):
+    return [sum(Fraction(int(D[i, j])) * v[j] for j in np.nonzero(D[i])[0]) for i in range(D.shape[0])]
+
+
+def _poisson_dense(grid, ty):
+    from pyamg.gallery import poisson
+    D = np.asarray(poisson(tuple(grid), type=ty, format='csr').toarray(), dtype=float)
+    return D if np.array_equal(D, np.rint(D)) else None
+
+
+def judge_e21(case):
+    """the clauses proved by extension E21, judged on the real outputs alone (exact rational arithmetic for poisson)"""
+    part, bad = case['part'], []
+    if part in ('e21-pq', 'e21-eig', 'e21-cheb'):
+        grid, ty = case['grid'], case['type']
+        D = _poisson_dense(grid, ty)
+        tag = f'poisson({tuple(grid)}, type={ty!r})'
+        if D is None:
+            return [f'{tag}: non-integer entries'], {}
+        if part == 'e21-pq':
+            x = [Fraction(v) for v in case['x']]
+            Ax = _fr_matvec(D, x)
+            q = sum(a * b for a, b in zip(x, Ax))
+            if any(x) and q <= 0:
+                bad.append(f'{tag}: x^T A x = {q} <= 0 for x = {case["x"]}: not positive definite')
+            if any(x) and not any(Ax):
+                bad.append(f'{tag}: A x = 0 for the nonzero x = {case["x"]}: singular')
+            return bad, {'q': q, 'Ax': Ax}
+        if part == 'e21-eig':
+            cs = [Fraction(c) for c in case['cs']]
+            v = _tensor_vec(grid, cs)
+            lam = sum(2 - 2 * c for c in cs) if ty == 'FD' else 3 ** len(grid) - math.prod(1 + 2 * c for c in cs)
+            Av = _fr_matvec(D, v)
+            if Av != [lam * t for t in v]:
+                k = next(i for i in range(len(v)) if Av[i] != lam * v[i])
+                bad.append(f'{tag}: the closed-form eigenpair (cos roots {case["cs"]}, eigenvalue {lam}) is not an eigenpair: '
+                           f'(A v)[{k}] = {Av[k]}, lambda v[{k}] = {lam * v[k]}')
+            return bad, {'lam': lam, 'v': v, 'Av': Av}
+        n, c = grid[0], Fraction(case['c'])
+        u = _cheb(c, n)
+        v = u[:n]
+        Av = _fr_matvec(D, v)
+        want = [(2 - 2 * c) * v[j] + (u[n] if j == n - 1 else 0) for j in range(n)]
+        if Av != want:
+            k = next(i for i in range(n) if Av[i] != want[i])
+            bad.append(f'{tag}: Chebyshev residual identity fails at row {k} for c = {c}: (A v) = {Av[k]}, expected {want[k]}')
+        return bad, {'u': u, 'Av': Av}
+    # e21-elas
+    from pyamg.gallery import linear_elasticity
+    X, Y = case['grid']
+    sp_ = None if case['spacing'] is None else tuple(case['spacing'])
+    A, _ = linear_elasticity((X, Y), spacing=sp_, E=case['E'], nu=case['nu'], format='csr')
+    D = A.toarray()
+    x = np.array(case['x'], dtype=float)
+    q = float(x @ (D @ x))
+    scale = float(np.abs(D).max()) * float(x @ x)
+    if x.any() and q <= 1e-12 * scale:
+        bad.append(f'linear_elasticity({(X, Y)}, spacing={case["spacing"]}, E={case["E"]}, nu={case["nu"]}): '
+                   f'x^T A x = {q} for x = {case["x"]}: not positive definite')
+    return bad, {'q': q, 'scale': scale, 'ndof': D.shape[0]}
+
+
+def e21_cases(ctx, deep=False):
+    rng = ctx.np_rng
+    quick = ctx.quick and not deep
+    lim = {1: 8, 2: 4, 3: 3} if quick else {1: 16, 2: 6, 3: 4, 4: 2}
+    for nd, m in lim.items():
+        for g in itertools.product(range(1, m + 1), repeat=nd):
+            n = int(np.prod(g))
+            for ty in ('FD', 'FE'):
+                xs = [rng.integers(-3, 4, size=n), np.ones(n, dtype=int)]
+                e = np.zeros(n, dtype=int)
+                e[int(rng.integers(n))] = 1
+                xs.append(e)
+                if not quick:
+                    xs.append(rng.integers(-1, 2, size=n) * (1 + np.arange(n) % 3))
+                for x in xs:
+                    yield {'part': 'e21-pq', 'grid': list(g), 'type': ty, 'x': [int(v) for v in x]}
+    exts = [1, 2, 3, 5, 8, 11]
+    for nd in (1, 2, 3):
+        for g in itertools.product(exts, repeat=nd):
+            if int(np.prod(g)) > (90 if quick else 250):
+                continue
+            combos = list(itertools.product(*[_rat_roots(e) for e in g]))
+            if len(combos) > (2 if quick else 6):
+                combos = [combos[int(k)] for k in rng.choice(len(combos), size=(2 if quick else 6), replace=False)]
+            for cs in combos:
+                for ty in ('FD', 'FE'):
+                    yield {'part': 'e21-eig', 'grid': list(g), 'type': ty, 'cs': [str(c) for c in cs]}
+    for n in range(1, (9 if quick else 13)):
+        for k in ([-6, -3, -2, -1, 0, 1, 2, 5] if quick else range(-8, 9)):
+            yield {'part': 'e21-cheb', 'grid': [n], 'type': 'FD', 'c': str(Fraction(k, 4))}
+    m = 3 if quick else 5
+    t = 0
+    for X in range(1, m + 1):
+        for Y in range(1, m + 1):
+            E, nu = ELAS_PARAMS[t % len(ELAS_PARAMS)]
+            spc = SPACINGS[t % len(SPACINGS)]
+            t += 1
+            n = 2 * X * Y
+            xs = [rng.integers(-2, 3, size=n), np.ones(n, dtype=int)]
+            e = np.zeros(n, dtype=int)
+            e[int(rng.integers(n))] = 1
+            xs.append(e)
+            for x in xs:
+                yield {'part': 'e21-elas', 'grid': [X, Y], 'spacing': None if spc is None else list(spc), 'E': E, 'nu': nu,
+                       'x': [int(v) for v in x]}
+
+
+def _rows(case):
+    """the rows whose `rowdot` reading is compared: first, last and four spread over the grid"""
+    n = int(np.prod(case['grid']))
+    return sorted({0, n - 1, n // 2, n // 3, (2 * n) // 3, (5 * n) // 7})
+
+
+def part_e21(ctx, lean=True, deep=False):
+    """theorems of extension E21 (poisson_posdef, poisson_spectrum_rat, poisson_1d_residual_rat, q12d_dirichlet_posdef):
+    their conclusions judged on the real matrices, and the driver-evaluated objects they speak about
+    (qform, rowdot, chebUQ, tvecQ, eigQ) compared with the real matrices"""
+    lines, meta = [], []
+    for case in e21_cases(ctx, deep):
+        bad, ref = judge_e21(case)
+        nz = any(case.get('x', [1]))
+        ctx.case(key=_key('e21', case), nontrivial=nz and int(np.prod(case['grid'])) >= 2,
+                 sample=dict(case) if ctx.evaluations % 211 == 0 else None)
+        ctx.feat(f'{case["part"]}:{len(case["grid"])}d' + (':' + case['type'] if 'type' in case else ''))
+        for b in bad:
+            ctx.violation(b, case)
+        if not lean or bad:
+            continue
+        g = enc_ints(case['grid'])
+        if case['part'] == 'e21-pq':
+            lines.append(f'ext_c20_pq {g} {case["type"]} {enc_ints(case["x"])} {enc_ints(_rows(case))}')
+        elif case['part'] == 'e21-eig':
+            lines.append(f'ext_c20_eig {g} {case["type"]} {",".join(case["cs"])} {enc_ints(_rows(case))}')
+        elif case['part'] == 'e21-cheb':
+            lines.append(f'ext_c20_cheb {case["grid"][0]} {case["c"]}')
+        else:
+            spc = '-' if case['spacing'] is None else enc_rats(case['spacing'])
+            lines.append(f'ext_c20_eq {case["grid"][0]} {case["grid"][1]} {spc} {enc_rat(case["E"])} {enc_rat(case["nu"])} '
+                         f'{enc_ints(case["x"])}')
+        meta.append((case, ref))
+    if not lean:
+        return
+    outs = _lean(ctx, lines)
+    fl = lambda s_: [Fraction(v) for v in s_.split(',')] if s_ != '-' else []
+    for (case, ref), o in zip(meta, outs):
+        part = case['part']
+        if o == 'err':
+            ctx.corr(part, case, o, 'returned')
+            continue
+        f = o.split(';')
+        if part == 'e21-pq':
+            if Fraction(f[0]) != ref['q']:
+                ctx.corr('poisson: qform reading', case, f[0], str(ref['q']))
+            if fl(f[1]) != [ref['Ax'][r] for r in _rows(case)]:
+                ctx.corr('poisson: rowdot reading', case, f[1][:120], str([ref['Ax'][r] for r in _rows(case)]))
+        elif part == 'e21-eig':
+            if f[0] != '1':
+                ctx.corr('U_g(c) = 0 on the rational roots (hypothesis of poisson_spectrum_rat)', case, f[0], '1')
+            if Fraction(f[1]) != ref['lam']:
+                ctx.corr('eigQ', case, f[1], str(ref['lam']))
+            if fl(f[2]) != ref['v']:
+                ctx.corr('tvecQ / chebUQ', case, f[2][:120], str(ref['v'][:12]))
+            if fl(f[3]) != [ref['Av'][r] for r in _rows(case)]:
+                ctx.corr('poisson: A v (rowdot reading)', case, f[3][:120], str([ref['Av'][r] for r in _rows(case)]))
+        elif part == 'e21-cheb':
+            if fl(f[0]) != ref['u']:
+                ctx.corr('chebUQ', case, f[0][:120], str(ref['u'][:12]))
+            if fl(f[1]) != ref['Av']:
+                ctx.corr('poisson 1-D: A v (rowdot reading)', case, f[1][:120], str(ref['Av'][:12]))
+        else:
+            if int(f[0]) != ref['ndof']:
+                ctx.corr('q12d[dirichlet] ndof', case, f[0], str(ref['ndof']))
+                continue
+            qm = float(Fraction(f[1]))
+            err = abs(qm - ref['q']) / max(ref['scale'], 1e-300)
+            ctx.rel_err(err)
+            if err > TOL:
+                ctx.corr('q12d[dirichlet]: qform reading', case, str(qm), str(ref['q']))
+            if any(case['x']) and Fraction(f[1]) <= 0:
+                ctx.corr('q12d[dirichlet]: model x^T A x <= 0 (contradicts q12d_dirichlet_posdef)', case, f[1], '')
+
+
 # ---------------------------------------------------------------- entry points
 
 def run(ctx):
     rng = ctx.np_rng
     n = ctx.scale(560, 10000)
     cases = [gen_stencil(rng, t) for t in range(n)] + [gen_stencil_bad(rng, t) for t in range(ctx.scale(12, 60))]
+    cases += [gen_stencil_wide(rng, t) for t in range(ctx.scale(420, 6000))] + list(full_coupling_cases(rng, ctx.quick))
     part_stencil(ctx, cases)
     part_poisson(ctx)
     part_diffusion(ctx, ctx.scale(240, 3000), ctx.scale(80, 1000))
     part_elas(ctx)
+    part_e21(ctx)
 
 
 def search(ctx):
     rng = ctx.np_rng
-    part_stencil(ctx, [gen_stencil(rng, t) for t in range(3000)], lean=False)
+    part_stencil(ctx, [gen_stencil(rng, t) for t in range(3000)] + [gen_stencil_wide(rng, t) for t in range(3000)]
+                 + list(full_coupling_cases(rng, False)), lean=False)
     part_poisson(ctx, lean=False, deep=True)
     part_diffusion(ctx, 2000, 600, lean=False)
     part_elas(ctx, lean=False, deep=True)
+    part_e21(ctx, lean=False, deep=True)
 
 
 def replay(ctx, data):
@@ -754,6 +1061,8 @@ def replay(ctx, data):
         bad = judge_poisson(case, run_poisson(case))
     elif part in ('diff2', 'diff3'):
         bad = judge_diff(case, run_diff(case))
+    elif str(part).startswith('e21-'):
+        bad = judge_e21(case)[0]
     else:
         bad = judge_elas(case, run_elas(case))
     for b in bad:
